@@ -1,0 +1,47 @@
+//! Verification-only task hooks (`--cfg noodles_verif`).
+//!
+//! This module exists only when the crate is built with `--cfg noodles_verif`. An external
+//! monitoring harness can install a hook that is called at the boundaries of the block
+//! (de)compression tasks, e.g., to log task start/end events or to delay individual blocks. Until
+//! a hook is installed, `hit` is a no-op.
+
+#![allow(missing_docs)]
+
+use std::sync::OnceLock;
+
+/// A hook call site.
+#[derive(Clone, Copy, Debug, Eq, Hash, PartialEq)]
+pub enum Site {
+    /// Start of a multithreaded writer compress task. `data` is the uncompressed block.
+    DeflateTaskStart,
+    /// End of a multithreaded writer compress task (before the result is handed over).
+    DeflateTaskEnd,
+    /// Start of a multithreaded reader inflate task. `data` is the raw frame.
+    InflateTaskStart,
+    /// End of a multithreaded reader inflate task (before the result is handed over).
+    InflateTaskEnd,
+    /// Start of an async writer blocking deflate task. `data` is the uncompressed block.
+    AsyncDeflateTaskStart,
+    /// End of an async writer blocking deflate task.
+    AsyncDeflateTaskEnd,
+    /// Start of an async reader blocking inflate task. `data` is the raw frame.
+    AsyncInflateTaskStart,
+    /// End of an async reader blocking inflate task.
+    AsyncInflateTaskEnd,
+}
+
+pub type Hook = fn(Site, &[u8]);
+
+static HOOK: OnceLock<Hook> = OnceLock::new();
+
+/// Installs the process-wide hook. Only the first call has an effect.
+pub fn set_hook(hook: Hook) {
+    let _ = HOOK.set(hook);
+}
+
+#[inline]
+pub(crate) fn hit(site: Site, data: &[u8]) {
+    if let Some(hook) = HOOK.get() {
+        hook(site, data);
+    }
+}
